@@ -257,10 +257,12 @@ pub fn fft_sizes(cfg: &Cfg) -> (usize, usize) {
     }
     let g = gcd(cfg.rate_in, cfg.rate_out).max(1);
     let (min_in, min_out) = (cfg.rate_in / g, cfg.rate_out / g);
+    // (whole blocks, counted with integers; at least one block for the types with sub-chunks)
+    let ceil_div = |a: usize, b: usize| (a + b - 1) / b.max(1);
     let chunks = match cfg.kind {
-        Kind::XX => (cfg.chunk as f32 / min_in as f32).ceil() as usize,
-        Kind::XI => ((cfg.chunk / cfg.sub_chunks.max(1)) as f32 / min_in as f32).ceil() as usize,
-        Kind::XO => ((cfg.chunk / cfg.sub_chunks.max(1)) as f32 / min_out as f32).ceil() as usize,
+        Kind::XX => ceil_div(cfg.chunk, min_in),
+        Kind::XI => ceil_div(cfg.chunk / cfg.sub_chunks.max(1), min_in).max(1),
+        Kind::XO => ceil_div(cfg.chunk / cfg.sub_chunks.max(1), min_out).max(1),
         _ => 0,
     };
     (chunks * min_in, chunks * min_out)
